@@ -300,6 +300,9 @@ def getattr_value(interp, st, base, attr, node=None):
             return f
         raise Outside(f"class attribute {base.name}.{attr}", node)
     # value methods / numpy attributes
+    if isinstance(base, Rows):
+        if attr == "shape":
+            return RowsShape(base)
     if isinstance(base, (Arr, Grid)):
         if attr == "shape":
             return tuple(base.shape) if isinstance(base, Arr) else tuple(base.dims)
@@ -353,7 +356,7 @@ def _bind(fn, base, base_node):
 
 
 # ----------------------------------------------------------------------------- calls
-_ALT_ENVS = {"old": "__pre__", "entry": "__entry__", "prev": "__prev__"}
+_ALT_ENVS = {"old": "__pre__", "entry": "__entry__", "prev": "__prev__", "final": "__final__"}
 
 
 def call(interp, st, node):
@@ -365,7 +368,7 @@ def call(interp, st, node):
         if alt is None:
             raise Outside(f"{fnode.id}() used where no such state exists", node)
         sub = I.State(dict(alt), st.pc, st.guards, st.mod, st.cls)
-        for k in ("__pre__", "__entry__", "__prev__", "__axioms__"):
+        for k in ("__pre__", "__entry__", "__prev__", "__final__", "__axioms__"):
             if k in st.env:
                 sub.env.setdefault(k, st.env[k])
         v = interp.ev(node.args[0], sub)
